@@ -123,6 +123,10 @@ func (os *ObjectStream) decode() error {
 	// Parse the header: N pairs of (objNum offset)
 	// The header is plain text integers separated by whitespace
 	if err := os.parseHeader(); err != nil {
+		// Forget the data and the entries read so far: a later call must fail
+		// the same way instead of working with half a header.
+		os.decoded = nil
+		os.offsets = nil
 		return fmt.Errorf("failed to parse object stream header: %w", err)
 	}
 
